@@ -9,7 +9,7 @@ import numpy as np
 
 from bycycle.features import compute_features
 from bycycle.burst import detect_bursts_cycles, detect_bursts_amp
-from bycycle.group.utils import progress_bar, check_kwargs_shape
+from bycycle.group.utils import progress_bar, check_progress, check_kwargs_shape
 from bycycle.utils.dataframes import epoch_df
 
 ###################################################################################################
@@ -91,6 +91,9 @@ def compute_features_2d(sigs, fs, f_range, compute_features_kwargs=None, axis=0,
     >>> dfs_features = compute_features_2d(sigs, fs, f_range=(8, 12), return_samples=False,
     ...                                   n_jobs=2, compute_features_kwargs=compute_kwargs, axis=0)
     """
+
+    # Check the progress bar option (also when no progress bar will be shown, i.e. axis is None)
+    check_progress(progress)
 
     # Check compute_features_kwargs
     kwargs = deepcopy(compute_features_kwargs)
